@@ -26,3 +26,28 @@ TEXT["C12"] = {
     "level_note": "Trusted: Lean kernel, standard axioms, extractor, parser model fidelity as explored by the correspondence through the real parser hook.",
     "technique": "Lean 4 arithmetic theorems over a model of the go token loops (constants generated from source) + differential correspondence through a parser hook",
 }
+HOOK_COMMITS += ["5add432", "99c3e00"]
+TEXT["C01"] = {
+    "level_text": "Full theorem stated (GenerateMovesExact), structural layers machine-checked, remaining layers open; decided per run by a three-way correspondence of the real generator, the Lean model and an executable FIDE-rules spec on thousands of valid positions incl. all hand-made special cases. Honest level: differential validation against a formal executable spec plus partial proof.",
+    "design_ref": "DESIGN.md section 6, C01",
+    "level_note": "Not yet a closed proof. Trusted: spec of the rules, correspondence generators (distribution printed in evidence), Lean kernel for the discharged lemmas.",
+    "technique": "Lean 4 model + executable FIDE spec, three-way differential; partial Lean proof (layers)",
+}
+TEXT["C02"] = {
+    "level_text": "Full theorem stated (MakeMoveRefines + history induction); see evidence for the theorems discharged in the run. Every check replays thousands of (position, legal move) pairs and long games through clone_with_move, the Lean model and Spec.play and compares complete boards after every ply.",
+    "design_ref": "DESIGN.md section 6, C02",
+    "level_note": "Trusted: spec of the rules (play/keepsRight), correspondence generators, Lean kernel for discharged theorems.",
+    "technique": "Lean 4 refinement theorem (make_move vs rules) + three-way differential on games",
+}
+TEXT["C17"] = {
+    "level_text": "Machine-checked that the quiescence selection is exactly filter(capture|promotion|check) of the generated moves and all of them when in check; the semantic half (engine check test = rules) is tied to C01/C02 and decided per position by the correspondence, including the list chosen inside search_until_quiet (hook).",
+    "design_ref": "DESIGN.md section 6, C17",
+    "level_note": "Trusted: as C01; hook observing the in-search selection.",
+    "technique": "Lean 4 structural theorems + three-way differential incl. in-search observation",
+}
+TEXT["C10"] = {
+    "level_text": "Target: kernel-checked exactness of all tables for all 2^64 occupancies (Spec.LookupExact). Every run compares ALL table entries reachable through the masks (107 648 + 128 + 4096) between engine, model and geometric spec, and re-decides the index/shift obligations on the constants extracted from magic.rs.",
+    "design_ref": "DESIGN.md section 6, C10",
+    "level_note": "Trusted: extractor, Lean kernel; until the enumeration proof is integrated, the 'bits off the mask do not matter' half is sampled, not proved.",
+    "technique": "Lean 4 kernel enumeration per square (decide +kernel) + soundness lemma; exhaustive table correspondence",
+}
